@@ -151,11 +151,23 @@ class Tiny2(nnx.Module):
         self.norm = nnx.LayerNorm(2, rngs=rngs)
 
 
+class TinyWithStats(nnx.Module):
+    """holds non-Param variables (BatchNorm statistics): 'only variables of the type nnx.Param' are read / written"""
+
+    def __init__(self, rngs):
+        self.a = nnx.Linear(3, 2, rngs=rngs)
+        self.bn = nnx.BatchNorm(2, rngs=rngs)
+
+
 def check_roundtrip():
+    import gymnasium as gym
     from rl_blox.blox.function_approximator.mlp import MLP
+    from rl_blox.blox.function_approximator.policy_head import DeterministicTanhPolicy
 
     bad = []
-    nets = [Tiny1(nnx.Rngs(0)), Tiny2(nnx.Rngs(1)), MLP(3, 2, hidden_nodes=[4, 5], activation="relu", rngs=nnx.Rngs(2))]
+    box = gym.spaces.Box(np.array([-1.0, 0.0], np.float32), np.array([2.0, 0.5], np.float32))
+    nets = [Tiny1(nnx.Rngs(0)), Tiny2(nnx.Rngs(1)), MLP(3, 2, hidden_nodes=[4, 5], activation="relu", rngs=nnx.Rngs(2)),
+            TinyWithStats(nnx.Rngs(3)), DeterministicTanhPolicy(MLP(3, 2, hidden_nodes=[4], activation="relu", rngs=nnx.Rngs(4)), box)]
     for net in nets:
         p0 = np.asarray(M.flat_params(net))
         n = p0.shape[0]
